@@ -626,7 +626,81 @@ fn unconnected_publish_case(cold: bool, self_first: bool) -> Result<(usize, usiz
   })
 }
 
+/// one subscriber of a share / publish panics on an item (user code); the program catches the panic
+/// around the source's call and the source emits again: the other subscribers, and the one that
+/// panicked, are still present and still receive. Local form (a panic poisons the mutexes of the
+/// thread-safe one).
+fn panicking_subscriber_case(publish: bool) -> Result<(Vec<String>, Vec<String>), String> {
+  use std::cell::RefCell;
+  use std::rc::Rc;
+  struct Picky(Rc<RefCell<Vec<String>>>, &'static str);
+  impl Observer<V, E> for Picky {
+    fn next(&mut self, v: V) {
+      if v.int() == 13 && self.1 == "a" {
+        panic!("a subscriber fails on an item");
+      }
+      self.0.borrow_mut().push(format!("{} {}", self.1, v.int()));
+    }
+    fn error(self, e: E) {
+      self.0.borrow_mut().push(format!("{} error {}", self.1, e));
+    }
+    fn complete(self) {
+      self.0.borrow_mut().push(format!("{} complete", self.1));
+    }
+    fn is_finished(&self) -> bool {
+      false
+    }
+  }
+  catch(|| {
+    let log: Rc<RefCell<Vec<String>>> = Default::default();
+    let mut hot = Subject::<'static, V, E>::default();
+    let src: rxrust::ops::box_it::BoxOp<'static, V, E> = hot.clone().box_it();
+    if publish {
+      let p = src.publish::<Subject<'static, V, E>>();
+      let f = p.fork();
+      std::mem::forget(f.clone().actual_subscribe(Picky(log.clone(), "b")));
+      std::mem::forget(f.clone().actual_subscribe(Picky(log.clone(), "a")));
+      std::mem::forget(f.clone().actual_subscribe(Picky(log.clone(), "c")));
+      std::mem::forget(p.connect());
+    } else {
+      let sh = src.share();
+      std::mem::forget(sh.clone().actual_subscribe(Picky(log.clone(), "b")));
+      std::mem::forget(sh.clone().actual_subscribe(Picky(log.clone(), "a")));
+      std::mem::forget(sh.clone().actual_subscribe(Picky(log.clone(), "c")));
+    }
+    for v in [1i64, 13, 2, 3] {
+      let mut h = hot.clone();
+      let _ = std::panic::catch_unwind(std::panic::AssertUnwindSafe(move || h.next(V::I(v))));
+    }
+    hot.complete();
+    let got = log.borrow().clone();
+    // b precedes a and always gets 13; c comes after a: the panic unwinds out of the fan-out,
+    // so whether c still gets item 13 is not demanded - everything else is
+    let want: Vec<String> = ["b 1", "a 1", "c 1", "b 13", "b 2", "a 2", "c 2", "b 3", "a 3", "c 3", "b complete", "a complete", "c complete"].iter().map(|x| x.to_string()).collect();
+    (got.into_iter().filter(|l| l != "c 13").collect::<Vec<_>>(), want)
+  })
+}
+
 pub fn run(cfg: &Cfg, rep: &mut Report) {
+  if cfg.shard == 0 && cfg.only_case.as_deref().map_or(true, |c| c.starts_with("panicking:")) {
+    for publish in [false, true] {
+      let id = format!("panicking:{}", publish);
+      rep.evaluations += 1;
+      rep.count("multicasts_with_a_subscriber_that_panics_on_an_item", 1);
+      let locus = if publish { "publish[a subscriber panicked on an item]" } else { "share[a subscriber panicked on an item]" };
+      match panicking_subscriber_case(publish) {
+        Err(p) => rep.violation("panic", locus, &id, json!({"panic": p})),
+        Ok((got, want)) => {
+          rep.events += got.len() as u64;
+          if got != want {
+            rep.violation("subscriber_missed_emission", locus, &id, json!({"observed": got, "expected": want}));
+          } else {
+            rep.nontrivial.insert(hash64(&id));
+          }
+        }
+      }
+    }
+  }
   if cfg.shard == 0 && cfg.only_case.as_deref().map_or(true, |c| c.starts_with("unconnected:")) {
     for cold in [false, true] {
       for self_first in [false, true] {
